@@ -1285,6 +1285,14 @@ func c11namespaceTable(c *core.Ctx, r *core.R) {
 		nss = append(nss, pool[i])
 	}
 	var nt compact.NamespaceTable
+	if r.Chance(0.3) { // a table that was filled before, with another set
+		var earlier []b6.Namespace
+		for _, i := range r.Perm(len(pool))[:r.Range(1, len(pool))] {
+			earlier = append(earlier, pool[i])
+		}
+		nt.FillFromNamespaces(earlier)
+		c.Count("namespace_tables_refilled")
+	}
 	nt.FillFromNamespaces(append([]b6.Namespace(nil), nss...))
 	c.Count("namespace_tables")
 	check := func(what string, nt *compact.NamespaceTable) bool {
